@@ -64,9 +64,17 @@ func c13ForwarderInit(precompile common.Address, from common.Address, nonce uint
 	panic("harness: cannot grind forwarder address")
 }
 
+// c13Siblings: every block of the history is first followed as b1 and then reorganised away in
+// favour of its sibling b2 (scen.forkAll): rewards, lockups, unlocks and claims of every block are
+// rolled back once before they count. Set per execution by the part loops.
+var c13Siblings bool
+
 func c13CRun(kinds []int) (string, string, string) {
 	u := c13Universe()
 	s, err := newScen(3, false, nil)
+	if err == nil {
+		s.forkAll = c13Siblings
+	}
 	if err != nil {
 		return "harness", err.Error(), ""
 	}
@@ -293,6 +301,7 @@ func c13Contracts(c *vx.Ctx) {
 	p.Bound("assigned_blocks", k)
 	p.Bound("kinds", c13CKinds)
 	p.Bound("pattern", c13CPattern)
+	p.Bound("variants", "plain history; every block as two siblings (b1 followed, then reorganised away for b2)")
 	var as [][]int
 	var rec func(cur []int)
 	rec = func(cur []int) {
@@ -316,35 +325,53 @@ func c13Contracts(c *vx.Ctx) {
 			p.Incomplete("deadline")
 			return
 		}
-		var key, desc, cls string
-		if perr := vx.Guard(func() { key, desc, cls = c13CRun(a) }); perr != "" {
-			key, desc = "panic:"+vx.PanicSite(perr), fmt.Sprintf("kinds %v: %s", a, perr)
-		}
-		if key == "harness" {
-			c.HarnessError(fmt.Sprintf("contracts %v: %s", a, desc))
-			return
-		}
-		p.Transitions += int64(len(c13CPattern))
-		p.Traces++
-		if key != "" {
-			p.Outcome("VIOLATED:" + key)
-			a := a
-			if c.Confirm(desc, func() string {
-				var k string
-				vx.Guard(func() { k, _, _ = c13CRun(a) })
-				return k
-			}) {
-				c.Violate("contracts", "contracts:"+key, desc, map[string]any{"kinds": a})
+		plainKey := ""
+		for _, sib := range []bool{false, true} {
+			sib := sib
+			run := func() (k, d, cl string) {
+				c13Siblings = sib
+				defer func() { c13Siblings = false }()
+				if perr := vx.Guard(func() { k, d, cl = c13CRun(a) }); perr != "" {
+					k, d = "panic:"+vx.PanicSite(perr), fmt.Sprintf("kinds %v: %s", a, perr)
+				}
+				return
 			}
-			continue
-		}
-		p.Outcome(cls)
-		if i%11 == 0 {
-			var names []string
-			for _, x := range a {
-				names = append(names, c13CKinds[x])
+			key, desc, cls := run()
+			if key == "harness" {
+				c.HarnessError(fmt.Sprintf("contracts %v (siblings=%v): %s", a, sib, desc))
+				return
 			}
-			p.Sample(map[string]any{"kinds": names, "result": cls})
+			p.Transitions += int64(len(c13CPattern))
+			p.Traces++
+			tag := ""
+			if sib {
+				tag = "siblings:"
+				if key != "" && key == plainKey {
+					p.Outcome("siblings:same-failure-as-plain-history")
+					continue
+				}
+			} else {
+				plainKey = key
+			}
+			if key != "" {
+				p.Outcome("VIOLATED:" + tag + key)
+				a := a
+				if sib {
+					desc = "every block first followed as b1, then reorganised away for its sibling b2: " + desc
+				}
+				if c.Confirm(desc, func() string { k, _, _ := run(); return k }) {
+					c.Violate("contracts", "contracts:"+tag+key, desc, map[string]any{"kinds": a, "siblings": sib})
+				}
+				continue
+			}
+			p.Outcome(tag + cls)
+			if i%11 == 0 && !sib {
+				var names []string
+				for _, x := range a {
+					names = append(names, c13CKinds[x])
+				}
+				p.Sample(map[string]any{"kinds": names, "result": cls})
+			}
 		}
 	}
 }
